@@ -161,6 +161,28 @@ theorem out_elem (objs : List Obj) (vs : List Visit) (c : OObj) (hc : c ∈ vari
       · rw [hvis]; simpa using hv
       · rw [hcore.1]; exact hio
 
+/-- the class rank of a copy is that of its original -/
+theorem visitCopies_cls (objs : List Obj) (v : Visit) (k : Nat) (out : List OObj) (c : OObj)
+    (h : c ∈ visitCopies objs v k out) (hx : c.extra = false) :
+    ∃ o, objs[c.orig]? = some o ∧ c.cls = o.cls := by
+  unfold visitCopies at h
+  rw [List.mem_append] at h
+  rcases h with h | h
+  · simp only [resolve, List.mem_map] at h
+    obtain ⟨c0, hc0, rfl⟩ := h
+    obtain ⟨q, hq, _, _, rfl⟩ := copyPass_mem v k _ _ c0 hc0
+    obtain ⟨i, o⟩ := q
+    have := (enum_mem objs 0 i o).mp hq
+    exact ⟨o, by simpa [mkCopy] using this.2, rfl⟩
+  · obtain ⟨h1, _⟩ := fermataPass_extra v k _ c h
+    rw [hx] at h1; cases h1
+
+theorem out_cls (objs : List Obj) (vs : List Visit) (c : OObj) (hc : c ∈ variantObjs objs 0 vs [])
+    (hx : c.extra = false) : ∃ o, objs[c.orig]? = some o ∧ c.cls = o.cls := by
+  rcases variantObjs_mem objs vs 0 [] c hc with h | ⟨n, v, out', _, hcv⟩
+  · simp at h
+  · exact visitCopies_cls objs v (0 + n) out' c hcv hx
+
 theorem out_extra_kind (objs : List Obj) (vs : List Visit) (c : OObj) (hc : c ∈ variantObjs objs 0 vs [])
     (hx : c.extra = true) : c.kind = .fermata := by
   rcases variantObjs_mem objs vs 0 [] c hc with h | ⟨n, v, out', hv, hcv⟩
@@ -192,7 +214,7 @@ theorem idRank_eq (objs : List Obj) (vs : List Visit)
   have hos : o.kind.isSig = false := by rw [hon]; rfl
   -- where a same-id note sits
   have hsame : ∀ q ∈ variantObjs objs 0 vs [], q.kind = .note → q.nid = c.nid →
-      q.extra = false ∧ q.orig = c.orig ∧ ∃ vq, vs[q.visit]? = some vq ∧ inWin vq o = true ∧
+      q.extra = false ∧ q.orig = c.orig ∧ q.cls = c.cls ∧ ∃ vq, vs[q.visit]? = some vq ∧ inWin vq o = true ∧
         q.start = o.start + (vq.off - vq.s) := by
     intro q hq hqk hqn
     have hqx : q.extra = false := by
@@ -207,7 +229,13 @@ theorem idRank_eq (objs : List Obj) (vs : List Visit)
     rw [e, ho] at hoq
     simp only [Option.some.injEq] at hoq
     subst hoq
-    exact ⟨hqx, e, vq, hvq, hwq, hsq⟩
+    have hcls : q.cls = c.cls := by
+      obtain ⟨o1, ho1, hc1⟩ := out_cls objs vs q hq hqx
+      obtain ⟨o2, ho2, hc2⟩ := out_cls objs vs c hcm hcx
+      rw [e, ho2] at ho1
+      simp only [Option.some.injEq] at ho1
+      rw [hc1, hc2, ho1]
+    exact ⟨hqx, e, hcls, vq, hvq, hwq, hsq⟩
   -- order of onsets = order of visits
   have hord : ∀ (a b : Nat) (va vb : Visit), vs[a]? = some va → vs[b]? = some vb → inWin va o = true →
       inWin vb o = true → a < b → o.start + (va.off - va.s) < o.start + (vb.off - vb.s) := by
@@ -217,8 +245,7 @@ theorem idRank_eq (objs : List Obj) (vs : List Visit)
     omega
   -- the predicate of `idRank` on the elements of the part
   have hpred : ∀ q ∈ enum 0 (variantObjs objs 0 vs []),
-      (decide (q.2.kind = Kind.note) && decide (q.2.nid = c.nid) &&
-        (decide (q.2.start < c.start) || (decide (q.2.start = c.start) && decide (q.1 < pos)))) =
+      (decide (q.2.kind = Kind.note) && decide (q.2.nid = c.nid) && noteBefore q pos c) =
       (keepP q.2 && (decide (q.2.orig = c.orig) && decide (q.2.visit < c.visit))) := by
     intro q hq
     obtain ⟨a, x⟩ := q
@@ -227,9 +254,10 @@ theorem idRank_eq (objs : List Obj) (vs : List Visit)
     have hxm : x ∈ variantObjs objs 0 vs [] := List.mem_of_getElem? hxa
     simp only
     by_cases hq1 : x.kind = .note ∧ x.nid = c.nid
-    · obtain ⟨hqx, he, vq, hvq, hwq, hsq⟩ := hsame x hxm hq1.1 hq1.2
+    · obtain ⟨hqx, he, hcl, vq, hvq, hwq, hsq⟩ := hsame x hxm hq1.1 hq1.2
       have hkeep : keepP x = true := by simp [keepP, hq1.1, hqx, Kind.isSig]
-      simp only [hq1.1, hq1.2, decide_true, Bool.true_and, hkeep, he]
+      simp only [noteBefore, hq1.1, hq1.2, decide_true, Bool.true_and, hkeep, he, hcl, Nat.lt_irrefl, decide_false,
+        Bool.false_or]
       rw [hsq, hsc]
       rcases Nat.lt_trichotomy x.visit c.visit with hlt | heq | hgt
       · have := hord _ _ vq vc hvq hvc hwq hwc hlt
